@@ -476,7 +476,10 @@ func c16Case(run *evid.Run, i int, j *Journal) {
 	// sequences: a log that was already trimmed by a bounded merge is merged again (with the same
 	// source, i.e. an older snapshot of what it dropped, or with another replica)
 	for rep := 0; rep < 2 && total >= 3; rep++ {
-		n1 := 1 + rng.Intn(total-1)
+		n1 := rng.Intn(total) // 0 included: a log emptied by a bound of 0 must keep working too
+		if rep == 0 && i%3 == 0 {
+			n1 = 0
+		}
 		c := rng.Intn(h.Replicas)
 		if rng.Intn(2) == 0 {
 			c = a // the same source again
@@ -535,6 +538,23 @@ func c16Case(run *evid.Run, i int, j *Journal) {
 				}
 				if n2 > 0 && n2 < total2 {
 					run.NonTrivial(shape + "/seq/" + fmt.Sprint(n1 < total/2))
+				}
+				// and the trimmed log accepts an append that names its heads
+				if n2%3 == 0 {
+					var ae iface.IPFSLogEntry
+					var aerr error
+					func() {
+						defer func() { pan = recover() }()
+						ae, aerr = x.Logs[a].Append(x.W.Ctx, []byte(fmt.Sprintf("after-trim-%d", n2)), nil)
+					}()
+					run.Count("appends_to_trimmed_logs", 1)
+					if pan != nil {
+						run.Violate("C16/panic", d, wit(), "append to a log trimmed by Join(other, %d) then Join(other, %d) panicked: %v", n1, n2, pan)
+					} else if aerr != nil {
+						run.Violate("C16/append-after-trim", d, wit(), "append to a log trimmed by bounded merges failed: %v", aerr)
+					} else if !model.EqualAsSets(hx.Cids(ae.GetNext()), got.Heads) {
+						run.Violate("C16/append-after-trim", d, wit(), "append to a log trimmed by bounded merges names %v as predecessors, heads were %v", hx.SortedShorts(hx.Cids(ae.GetNext())), hx.SortedShorts(got.Heads))
+					}
 				}
 			}
 		} else {
